@@ -2159,10 +2159,14 @@ theorem reads_queries {H : Nat × Nat → Prop} {buf : Bytes} : ∀ (qs : List Q
       (fun x hx => hwf x (by simp [hx])) l2
     simpa [List.append_assoc] using this
 
-/-- a record that `read_records` passes on to the section's list: not OPT/SIG/TSIG, and
-`Update0` only in UPDATE messages -/
-def SectionOK (op : Nat) (r : Record) : Prop :=
-  RecWF r ∧ r.rtype ≠ T_SIG ∧ r.rtype ≠ T_TSIG ∧ (r.rdata.isUpdate = true → op = OP_UPDATE)
+/-- a record that `read_records` passes on to the section's list (`isAdd`: the additional section).
+Answer / authority: not OPT/SIG/TSIG-typed (the decoder refuses those there).  Additional: not OPT-typed
+(that goes to `edns`); a SIG(0) record stays in the list; a TSIG-typed record stays only with empty
+RDATA (a TSIG value goes to `signature`).  `Update0` only in UPDATE messages. -/
+def SectionOK (op : Nat) (r : Record) (isAdd : Bool := false) : Prop :=
+  RecWF r ∧ (isAdd = false → r.rtype ≠ T_SIG ∧ r.rtype ≠ T_TSIG) ∧
+    (isAdd = true → r.rtype = T_TSIG → r.rdata.isUpdate = true) ∧
+    (r.rdata.isUpdate = true → op = OP_UPDATE)
 
 theorem fq_isUpdate (r : Record) : r.fq.rdata.isUpdate = r.rdata.isUpdate := by
   cases hd : r.rdata <;> simp [Record.fq, hd, RData.fq, RData.isUpdate]
@@ -2170,7 +2174,7 @@ theorem fq_isUpdate (r : Record) : r.fq.rdata.isUpdate = r.rdata.isUpdate := by
 /-- the decoder's record loop over the records' layouts (any section) -/
 theorem reads_records {H : Nat × Nat → Prop} {opq : Nat → Rd Bytes} {buf : Bytes} (isAdd : Bool) (op : Nat) :
     ∀ (rs : List Record) (acc : List Record) (edns : Option Edns) (p e : Nat),
-    (∀ r ∈ rs, SectionOK op r) → layAll (rs.map layRecord) H buf p e →
+    (∀ r ∈ rs, SectionOK op r isAdd) → layAll (rs.map layRecord) H buf p e →
     Reads (readRecords opq isAdd op rs.length (acc, edns, none)) buf p
       (acc ++ rs.map Record.fq, edns, none) e
   | [], acc, edns, p, e, _, h => by
@@ -2179,7 +2183,7 @@ theorem reads_records {H : Nat × Nat → Prop} {opq : Nat → Rd Bytes} {buf : 
     exact Reads.pure _ _ _
   | r :: rs, acc, edns, p, e, hwf, h => by
     obtain ⟨m, l1, l2⟩ := h
-    obtain ⟨hr, hs1, hs2, hup⟩ := hwf r (by simp)
+    obtain ⟨hr, hs, hts, hup⟩ := hwf r (by simp)
     simp only [List.length_cons, readRecords]
     refine Reads.bind (fun t => ⟨t + 1, rfl⟩ : Reads (Rd.tick) buf p () p) ?_
     refine Reads.bind (reads_record r hr l1) ?_
@@ -2193,7 +2197,13 @@ theorem reads_records {H : Nat × Nat → Prop} {opq : Nat → Rd Bytes} {buf : 
     · have hop := hup hu
       rw [if_neg (by intro hc; exact hc.1 hop)]
       simp only [Option.isSome_none, Bool.false_eq_true, ↓reduceIte]
-      rw [if_neg (by intro hc; rcases hc.2 with h1 | h1 | h1; exact hr.rtype.2 h1; exact hs1 h1; exact hs2 h1)]
+      rw [if_neg (by
+        intro hc
+        have hf : isAdd = false := by simpa using hc.1
+        rcases hc.2 with h1 | h1 | h1
+        · exact hr.rtype.2 h1
+        · exact (hs hf).1 h1
+        · exact (hs hf).2 h1)]
       cases isAdd with
       | false => simpa using ih'
       | true =>
@@ -2209,7 +2219,13 @@ theorem reads_records {H : Nat × Nat → Prop} {opq : Nat → Rd Bytes} {buf : 
         exact ih'
     · rw [if_neg (by intro hc; exact hu hc.2.2)]
       simp only [Option.isSome_none, Bool.false_eq_true, ↓reduceIte]
-      rw [if_neg (by intro hc; rcases hc.2 with h1 | h1 | h1; exact hr.rtype.2 h1; exact hs1 h1; exact hs2 h1)]
+      rw [if_neg (by
+        intro hc
+        have hf : isAdd = false := by simpa using hc.1
+        rcases hc.2 with h1 | h1 | h1
+        · exact hr.rtype.2 h1
+        · exact (hs hf).1 h1
+        · exact (hs hf).2 h1)]
       cases isAdd with
       | false => simpa using ih'
       | true =>
@@ -2221,6 +2237,6 @@ theorem reads_records {H : Nat × Nat → Prop} {opq : Nat → Rd Bytes} {buf : 
         obtain ⟨hpv, hty⟩ := hpv
         cases hdd : r.rdata <;> rw [hdd] at hpv hty <;> simp [RData.proved] at hpv <;>
           first
-          | (exfalso; exact hs2 hty.1)
+          | (exfalso; exact hu (hts rfl hty.1))
           | (simp only [Record.fq, hdd, RData.fq]; simp only [Record.fq, hdd, RData.fq] at ih'; exact ih')
 end HickoryVerif.C02
